@@ -219,6 +219,10 @@ impl MemTable {
 			};
 
 			self.insert_into_memtable(&ikey, &val)?;
+			#[cfg(surrealkv_verif)]
+			if _i + 1 < batch.entries.len() {
+				crate::verif::yield_point("memtable:entry-inserted");
+			}
 		}
 
 		// Get the highest sequence number used from the batch
